@@ -29,6 +29,27 @@ theorem C20_table : ∀ r ∈ ErrCodes.codes, C20_rowOk r = true := by
 /-- C20, "its own": distinct codes have distinct messages. -/
 theorem C20_distinct : C20_distinctOk ErrCodes.codes = true := by decide +kernel
 
+/-- does the message in the slot of code `k` describe the condition named `name`? -/
+def C20_slotDescribes (name : Str) (k : Nat) : Bool :=
+  match ErrList.message k with
+  | some m => ErrWords.describes name m
+  | none => false
+
+/-- no message of the header describes the condition of ANOTHER code -/
+def C20_discriminatesOk (rs : List (Str × Nat)) : Bool :=
+  rs.all (fun r => rs.all (fun s => s.2 == r.2 || !C20_slotDescribes r.1 s.2))
+
+/-- C20, "that very condition": the specification of each condition is met by the message in its own slot (`C20_table`)
+    and by the message of NO other defined code — so exchanging two initialisers, or shifting the positional table by one
+    slot, breaks `C20_table` for at least one of the codes involved. -/
+theorem C20_discriminates : ∀ r ∈ ErrCodes.codes, ∀ s ∈ ErrCodes.codes, s.2 ≠ r.2 → C20_slotDescribes r.1 s.2 = false := by
+  have h : C20_discriminatesOk ErrCodes.codes = true := by decide +kernel
+  intro r hr s hs hne
+  have h1 := List.all_eq_true.mp (List.all_eq_true.mp h r hr) s hs
+  rcases Bool.or_eq_true _ _ |>.mp h1 with h2 | h2
+  · exact absurd (by simpa using h2) hne
+  · simpa using h2
+
 /-- the table is exactly as long as `cif_nerr` says (no initialiser beyond it, none missing before it) -/
 theorem C20_nerr_is_length : ErrCodes.nerr = ErrCodes.errlist.length := by decide +kernel
 
